@@ -36,6 +36,7 @@ theorem C02_new_objects_hash_their_bytes (c : Cfg) (s : St) (cmd : Cmd) (h : Sou
   | recheck ps m f => exact cacheFrom_of_eq (recheck_cache c m f s ps)
   | remove ps a f => exact remove_from s ps a f
   | untrack ps => exact untrack_from s ps
+  | untrackRestore ps bl => exact untrackRestore_from s ps bl
   | copy a b o => exact cacheFrom_of_eq (copy_cache c o s a b)
   | move a b o => exact cacheFrom_of_eq (move_cache c o s a b)
 
@@ -63,6 +64,7 @@ theorem C02_content_addressed (c : Cfg) (cs : List Cmd) (hs : SoundRun c St.init
 def Cmd.gentle : Cmd → Bool
   | .remove _ _ _ => false
   | .untrack _ => false
+  | .untrackRestore _ _ => false
   | .track _ o => !o.force
   | .carryIn _ _ f => !f
   | _ => true
@@ -82,6 +84,7 @@ theorem C02_objects_immutable (c : Cfg) (s : St) (cmd : Cmd) (hg : cmd.gentle = 
   | recheck ps m f => exact cacheKeep_of_eq (recheck_cache c m f s ps)
   | remove ps a f => simp [Cmd.gentle] at hg
   | untrack ps => simp [Cmd.gentle] at hg
+  | untrackRestore ps bl => simp [Cmd.gentle] at hg
   | copy a b o => exact cacheKeep_of_eq (copy_cache c o s a b)
   | move a b o => exact cacheKeep_of_eq (move_cache c o s a b)
 
